@@ -279,17 +279,11 @@ func (w *c11World) seen(rw *c03RW, from int) *c11Seen {
 	return s
 }
 
-// One command packet of ANY command type (the type byte is a solver variable, so the whole
-// dispatch table - special cases, registered handlers, unregistered types - is covered) from a
-// connection of any identity, with attacker-chosen sender/receiver/token fields and a body
-// naming the victim's objects.
-func Harness_C11_any_command() {
-	verif_ClockSet(int64(1) << 60)
-	verif_UseTapeRandom()
-	ctx, stop := context.WithCancel(context.Background())
-	w := &c11World{ctx: ctx, maps: &c11Maps{m: map[string]*models.PortMapping{}}}
+// c11Setup builds the world: the production command wiring on a real SessionManager, the
+// victims' objects and three authenticated control connections (owner, other party, stranger).
+func c11Setup(ctx context.Context) (w *c11World, connA, connB, connS *c03RW, code *models.TunnelConnectionCode, dom *repos.HTTPDomainMapping) {
+	w = &c11World{ctx: ctx, maps: &c11Maps{m: map[string]*models.PortMapping{}}}
 	w.sm = session.NewSessionManager(nil, ctx)
-	defer func() { w.sm.Close(); stop() }()
 	w.sm.SetNodeID("node-A")
 	auth := c11Auth{NewServerAuthHandler(&c11Cloud{maps: w.maps}, w.sm, nil, nil, nil, nil)}
 	w.sm.SetAuthHandler(auth)
@@ -318,16 +312,32 @@ func Harness_C11_any_command() {
 	// that never authenticated
 	w.maps.put(&models.PortMapping{ID: "pm0", ListenClientID: 0, TargetClientID: c11B, Status: models.MappingStatusActive, ExpiresAt: &future,
 		Protocol: models.ProtocolHTTP, TargetHost: "127.0.0.1", TargetPort: 8080, TrafficStats: stats.TrafficStats{BytesSent: 5, BytesReceived: 6}})
-	code, cerr := w.svc.CreateConnectionCode(&conncode.CreateRequest{TargetClientID: c11A, TargetAddress: "tcp://127.0.0.1:22",
+	var cerr error
+	code, cerr = w.svc.CreateConnectionCode(&conncode.CreateRequest{TargetClientID: c11A, TargetAddress: "tcp://127.0.0.1:22",
 		ActivationTTL: time.Hour, MappingDuration: time.Hour, CreatedBy: "client-1001"})
 	verif_Assert("C11.setup.code", cerr == nil && code != nil)
-	dom, derr := w.domains.CreateMapping(ctx, c11A, "app", "t.net", "127.0.0.1", 8080)
+	var derr error
+	dom, derr = w.domains.CreateMapping(ctx, c11A, "app", "t.net", "127.0.0.1", 8080)
 	verif_Assert("C11.setup.domain", derr == nil && dom != nil)
 
-	connA, _ := w.newConn(c11A)
-	connB, _ := w.newConn(c11B)
-	connS, _ := w.newConn(c11S)
+	connA, _ = w.newConn(c11A)
+	connB, _ = w.newConn(c11B)
+	connS, _ = w.newConn(c11S)
 	verif_Quiesce()
+
+	return
+}
+
+// One command packet of ANY command type (the type byte is a solver variable, so the whole
+// dispatch table - special cases, registered handlers, unregistered types - is covered) from a
+// connection of any identity, with attacker-chosen sender/receiver/token fields and a body
+// naming the victim's objects.
+func Harness_C11_any_command() {
+	verif_ClockSet(int64(1) << 60)
+	verif_UseTapeRandom()
+	ctx, stop := context.WithCancel(context.Background())
+	w, connA, connB, connS, code, dom := c11Setup(ctx)
+	defer func() { w.sm.Close(); stop() }()
 
 	// ---- the command under test --------------------------------------------------------------
 	who := []int64{0, c11A, c11B, c11S}[verif_Choose(4)]
@@ -458,4 +468,51 @@ func Harness_C11_any_command() {
 		verif_Cover("C11.domain_create")
 	}
 	verif_Cover("C11.done")
+}
+
+// Two commands in sequence: a party reads one of its objects (mapping details, mapping list, code
+// list, domain list, configuration), then a stranger - or an unauthenticated connection - sends
+// the same command with the same body. What the first answer contained must not leak into the
+// second one (caches keyed by object instead of by requester, reused response buffers, ...).
+func Harness_C11_sequence() {
+	verif_ClockSet(int64(1) << 60)
+	verif_UseTapeRandom()
+	ctx, stop := context.WithCancel(context.Background())
+	w, connA, connB, connS, code, dom := c11Setup(ctx)
+	defer func() { w.sm.Close(); stop() }()
+	ct := []packet.CommandType{packet.MappingGet, packet.MappingList, packet.ConnectionCodeList, packet.HTTPDomainList, packet.ConfigGet}[verif_Choose(5)]
+	body := &c11Body{MappingID: "pm1", Code: code.Code}
+	bodyJSON, _ := json.Marshal(body)
+	send := func(rw *c03RW, n string) *c11Seen {
+		from := len(rw.Out.Buf)
+		w.sm.HandlePacket(&types.StreamPacket{ConnectionID: rw.id, Timestamp: time.Now(), Packet: &packet.TransferPacket{PacketType: packet.JsonCommand,
+			CommandPacket: &packet.CommandPacket{CommandType: ct, CommandId: n, CommandBody: string(bodyJSON)}}})
+		verif_Quiesce()
+		return w.seen(rw, from)
+	}
+	first := connA
+	if ct == packet.MappingGet && verif_Bool() {
+		first = connB // the other party of the mapping
+	}
+	r1 := send(first, "cmd-1")
+	if ct == packet.MappingGet {
+		verif_Assert("C11.seq.party_served", r1.success && r1.has("pm1"))
+	}
+	// a moment later (well inside any short-lived cache) somebody else asks the same
+	verif_ClockSet(int64(1)<<60 + int64(verif_Byte())*int64(10*time.Millisecond))
+	var second *c03RW
+	if verif_Bool() {
+		second = connS
+	} else {
+		second, _ = w.newConn(0)
+		verif_Quiesce()
+	}
+	r2 := send(second, "cmd-2")
+	verif_Assert("C11.seq.mapping_not_disclosed", !r2.has("pm1"))
+	verif_Assert("C11.seq.code_not_disclosed", !r2.has(code.Code))
+	verif_Assert("C11.seq.domain_not_disclosed", !r2.has(dom.ID) && !r2.has("app.t.net"))
+	if second != connS {
+		verif_Assert("C11.seq.unauth_refused", !r2.success)
+	}
+	verif_Cover("C11.seq.done")
 }
